@@ -564,7 +564,7 @@ func opString(payload []byte) string {
 		Key   *string `json:"key"`
 		Op    string  `json:"op"`
 		Value []byte  `json:"value"`
-		Docs  []struct {
+		Docs  []*struct {
 			Key   string `json:"key"`
 			Value []byte `json:"value"`
 		} `json:"docs"`
@@ -576,6 +576,9 @@ func opString(payload []byte) string {
 	case op.Op == "PUTALL" && op.Key != nil && *op.Key == "":
 		var ds []string
 		for _, d := range op.Docs {
+			if d == nil {
+				continue // a `null` member (hand-made entry): not a document
+			}
 			ds = append(ds, hx([]byte(d.Key))+":"+hx(d.Value))
 		}
 		if len(ds) == 0 {
